@@ -9,6 +9,9 @@ tie     : correspondence
                       Distance::pointToSegment: results must be vertex-for-vertex (bit) identical
             tps/hull/coverage   generated valid inputs through the C API; the Lean driver checks the contract on
                       (input, output) exactly and answers `ok`
+            jump      ComponentJumpChecker::hasJump (both overloads) on hand-built TaggedLineStrings vs. Model/Simplify/Jump.lean (exact)
+            vsindex   index::VertexSequencePackedRtree (build / remove / query / getBounds) vs. Model/Simplify/VertexIndex.lean;
+                      theorems about both models: Props/C18Index.lean
 A dp disagreement is first judged by the property-level oracle (`dporacle`: subsequence, endpoints, every vertex
 within tolerance / 2*tolerance of the result): if the oracle fails, that input is a concrete violation of the
 property; otherwise only the model/implementation tie is broken.  For the contract streams any answer other than
@@ -18,8 +21,10 @@ import verif
 from verif import log
 
 LEVEL = "proof"
-PROPS = ["GeosModel.Props.C18"]
+PROPS = ["GeosModel.Props.C18", "GeosModel.Props.C18Index"]
 DRV = "drv_c18"
+DIRECT = {"jump": ("ComponentJumpChecker::hasJump", "GeosModel.Jump.hasJumpSection / hasJumpSegs"),
+          "vsindex": ("index::VertexSequencePackedRtree (build / remove / query / getBounds)", "GeosModel.VSPR")}
 
 
 def harness_replay(exe, case, work):
@@ -127,6 +132,99 @@ def shrink_dp(exe, case, work, still_bad=None):
     return mk(pts)
 
 
+# ---- shrinking of contract-stream cases (tps / hull): drop elements, holes, vertices while the contract still fails
+
+def parse_geom(tk, i=0):
+    """GTree tokens -> (tree, next index); tree = (tag, [pts]) for L/R/P, ('Y', [rings]), (multi tag, [children])"""
+    def seq(i):
+        n = int(tk[i + 1])
+        pts = [(tk[i + 2 + 2 * k], tk[i + 3 + 2 * k]) for k in range(n)]
+        return pts, i + 2 + 2 * n
+    t = tk[i]
+    if t in ("L", "R", "P"):
+        pts, j = seq(i + 1)
+        return (t, pts), j
+    if t == "Y":
+        k, j, rings = int(tk[i + 1]), i + 2, []
+        for _ in range(k):
+            r, j = seq(j)
+            rings.append(r)
+        return ("Y", rings), j
+    k, j, ch = int(tk[i + 1]), i + 2, []
+    for _ in range(k):
+        c, j = parse_geom(tk, j)
+        ch.append(c)
+    return (t, ch), j
+
+
+def show_geom(g):
+    def seq(pts):
+        return "xy %d" % len(pts) + "".join(" %s %s" % p for p in pts)
+    t, body = g
+    if t in ("L", "R", "P"):
+        return t + " " + seq(body)
+    if t == "Y":
+        return "Y %d" % len(body) + "".join(" " + seq(r) for r in body)
+    return "%s %d" % (t, len(body)) + "".join(" " + show_geom(c) for c in body)
+
+
+def geom_variants(g):
+    """smaller geometries, most drastic first"""
+    t, body = g
+    if t == "Y":
+        for h in range(len(body) - 1, 0, -1):
+            yield ("Y", body[:h] + body[h + 1:])
+        for ri, r in enumerate(body):
+            if len(r) > 4:
+                for v in range(len(r) - 1):
+                    q = r[:v] + r[v + 1:]
+                    if v == 0:
+                        q = q[:-1] + [q[0]]
+                    yield ("Y", body[:ri] + [q] + body[ri + 1:])
+    elif t == "L":
+        if len(body) > 2:
+            for v in range(len(body)):
+                yield ("L", body[:v] + body[v + 1:])
+    elif t in ("ML", "MY", "GC"):
+        if len(body) > 1:
+            for c in range(len(body) - 1, -1, -1):
+                yield (t, body[:c] + body[c + 1:])
+        for ci, c in enumerate(body):
+            for v in geom_variants(c):
+                yield (t, body[:ci] + [v] + body[ci + 1:])
+
+
+def shrink_contract(exe, stream, case, work, budget=260):
+    """greedy reduction of a `T …` / `H …` case; every candidate is re-run on the implementation and re-judged by the driver"""
+    try:
+        tk = case.split(" | ")[0].split()
+        nhead = 3 if tk[0] == "T" else 5          # T tol srid / H outer mode param srid
+        head = tk[:nhead]
+        g, end = parse_geom(tk, nhead)
+        if end != len(tk):
+            return case
+    except Exception:
+        return case
+    def bad(gg):
+        c, e = harness_replay(exe, " ".join(head) + " " + show_geom(gg), work)
+        if c is None:
+            return None
+        return c if driver(stream, c).startswith("FAIL") else None
+    best = case
+    changed = True
+    while changed and budget > 0:
+        changed = False
+        for v in geom_variants(g):
+            if budget <= 0:
+                break
+            budget -= 1
+            c = bad(v)
+            if c:
+                g, best, changed = v, c, True
+                break
+    return best
+
+
 def oracle_fails(exe, case, work):
     c, e = harness_replay(exe, case, work)
     if c is None:
@@ -153,6 +251,10 @@ def run(ctx):
         "is proved (`*_check_sound`); TPS distance tolerance is checked in Float with the code's own distance function; "
         "hull target parameters and 'same union up to tolerance' of coverage simplification are not checked",
         "contract streams use contact-free valid inputs (generator filtered with GEOS's robust LineIntersector and re-checked exactly by the driver)",
+        "models of index::VertexSequencePackedRtree (Model/Simplify/VertexIndex.lean) and simplify::ComponentJumpChecker (Model/Simplify/Jump.lean) are "
+        "hand-written from the C++ and tied by the direct streams vsindex / jump only (no translator); ordinates of the index are order keys of the doubles "
+        "(the class only compares); the jump stream assumes the C++ orientation index is exact on its inputs (C07); RingHull / TPVWSimplifier / "
+        "TaggedLineStringSimplifier themselves (the callers of these cores) are not modelled",
     ])
     proved = ctx.prove_generated([("dp_simplify", "GeosModel/Generated/DPSimplify.lean", "GeosModel.Props.C18Gen")], PROPS, extra_targets=(DRV,))
     ok, out = verif.build_geos("rel")
@@ -167,8 +269,11 @@ def run(ctx):
     quick = ctx.tier == "quick"
     plan = (("dp", 60000 if quick else 600000),
             ("tps", 8000 if quick else 100000),
-            ("hull", 8000 if quick else 100000),
-            ("coverage", 2400 if quick else 30000))
+            ("hull", 6000 if quick else 100000),
+            ("coverage", 2400 if quick else 30000),
+            # direct streams against two small decision cores of the simplifiers (models: Model/Simplify/Jump.lean, VertexIndex.lean)
+            ("jump", 24000 if quick else 300000),
+            ("vsindex", 4000 if quick else 50000))
     corr = {}
     found_input = False
     for stream, n in plan:
@@ -211,6 +316,18 @@ def run(ctx):
                                    "replay_cmd": "%s replay <file with the case line>" % exe, "signature": sig}, signature=sig)
                 else:
                     tie_only.append((case, exp, got, verdict))
+            elif stream in DIRECT:
+                # model and implementation of a decision core differ; whether the property fails is for tps / hull / coverage to show
+                if stream in seen:
+                    continue
+                seen.append(stream)
+                ctx.violation("correspondence stream %s no longer checks: %s differs from its Lean model (%s) on %d generated inputs%s"
+                              % (stream, DIRECT[stream][0], DIRECT[stream][1], corr[stream]["disagreements"],
+                                 "; a failing input of the simplifiers was found by another stream" if found_input else
+                                 "; the contract streams found no violated guarantee in this run"),
+                              {"kind": "tie-broken", "correspondence": stream, "case": case, "impl": exp[:2000], "model": got[:2000],
+                               "replay_cmd": "%s replay <file with the case line> ; %s %s < file" % (exe, verif.driver_path(DRV), stream)},
+                              nofail=True)
             else:
                 kind = got.split(":", 1)[1] if got.startswith("FAIL:") else got
                 sig = {"stream": stream, "contract": kind}
@@ -219,6 +336,13 @@ def run(ctx):
                 seen.append(sig)
                 if got.startswith("FAIL"):
                     found_input = True
+                    if stream in ("tps", "hull"):
+                        small = shrink_contract(exe, stream, case, ctx.work)
+                        g2 = driver(stream, small)
+                        if g2.startswith("FAIL"):
+                            case, got = small, g2
+                            kind = got.split(":", 1)[1]
+                            sig = {"stream": stream, "contract": kind}
                     ctx.violation("%s: output violates the contract (%s)" % (stream, kind),
                                   {"kind": "failing-input", "stream": stream, "case": case, "checker": got,
                                    "replay_cmd": "%s replay <file with the case line> | cut -f1 | %s %s" % (exe, verif.driver_path(DRV), stream),
@@ -291,7 +415,7 @@ def replay(ctx, path):
     if not case or not exe:
         print("replay file has no case line (kind=%s)" % r.get("kind"))
         return 1 if r.get("kind") != "failing-input" else 2
-    stream = {"D": "dp", "T": "tps", "H": "hull", "C": "coverage"}.get(case.split()[0], "dp")
+    stream = {"D": "dp", "T": "tps", "H": "hull", "C": "coverage", "J": "jump", "V": "vsindex"}.get(case.split()[0], "dp")
     os.makedirs(ctx.work, exist_ok=True)
     c, e = harness_replay(exe, case, ctx.work)
     print("case :", (c or case)[:2000])
@@ -305,6 +429,10 @@ def replay(ctx, path):
         print("model:", m[:2000])
         print("property oracle:", v)
         bad = v.startswith("FAIL") or (m != e and r.get("kind") == "tie-broken")
+    elif stream in DIRECT:
+        m = driver(stream, c)
+        print("model:", m[:2000])
+        bad = m != e
     else:
         m = driver(stream, c)
         print("contract checker:", m)
